@@ -6,6 +6,7 @@
 package main
 
 import (
+	"archive/tar"
 	"bytes"
 	"context"
 	"crypto/sha256"
@@ -352,6 +353,20 @@ func runCLI(r *rand.Rand, dir string, thorough bool) {
 				b, err := os.ReadFile(filepath.Join(work, "out"))
 				return J{"untouched": err == nil && bytes.Equal(b, prev)}
 			}},
+		// a destination whose name leaves no room for the name of a temporary file next to it: the command cannot work through a
+		// temporary file, and it must not fall back to writing into the destination (that is what --in-place is for)
+		{name: "extract-longname", args: func(url, work string) []string {
+			return []string{"extract", "-n", "3", "-s", url, idxFile, filepath.Join(work, strings.Repeat("n", 250))}
+		},
+			prep: func(work string) { must(os.WriteFile(filepath.Join(work, strings.Repeat("n", 250)), prev, 0644)) },
+			complete: func(work, _ string) bool {
+				b, _ := os.ReadFile(filepath.Join(work, strings.Repeat("n", 250)))
+				return bytes.Equal(b, blob)
+			},
+			extra: func(work string) J {
+				b, err := os.ReadFile(filepath.Join(work, strings.Repeat("n", 250)))
+				return J{"untouched": err == nil && bytes.Equal(b, prev)}
+			}},
 		{name: "extract-k-stats", args: func(url, work string) []string {
 			return []string{"extract", "-k", "--print-stats", "-n", "3", "-s", url, idxFile, filepath.Join(work, "out")}
 		},
@@ -465,6 +480,107 @@ func runCLI(r *rand.Rand, dir string, thorough bool) {
 	}
 }
 
+// `tar -i --input-format tar` reading the tar stream from a FIFO: the signal arrives while the command waits for the stream (before
+// the first entry), or between two entries; the stream is delivered completely afterwards. Exit 0 is only acceptable with an index of
+// the whole tree.
+func runFifoSignal(r *rand.Rand, dir string, thorough bool) {
+	var tb bytes.Buffer
+	tw := tar.NewWriter(&tb)
+	var pieces []int // stream offsets after each member
+	for j := 0; j < 6; j++ {
+		body := make([]byte, 300+r.Intn(3000))
+		r.Read(body)
+		tw.WriteHeader(&tar.Header{Name: fmt.Sprintf("f%d", j), Mode: 0644, Size: int64(len(body)), Typeflag: tar.TypeReg, ModTime: time.Unix(1600000000, 0)})
+		tw.Write(body)
+		tw.Flush()
+		pieces = append(pieces, tb.Len())
+	}
+	tw.Close()
+	full := tb.Bytes()
+	rounds := 3
+	if thorough {
+		rounds = 12
+	}
+	for round := 0; round < rounds; round++ {
+		for _, after := range []int{0, 1, 3} { // members delivered before the signal
+			sig := []syscall.Signal{syscall.SIGINT, syscall.SIGTERM}[(round+after)%2]
+			work := mkdir(filepath.Join(dir, "fifowork"))
+			store := mkdir(filepath.Join(dir, "fifostore"))
+			fifo := filepath.Join(work, "in.tar")
+			must(syscall.Mkfifo(fifo, 0644))
+			index := filepath.Join(work, "made.caidx")
+			cmd := exec.Command(binary, "tar", "-i", "-n", "2", "-m", "1:4:16", "-s", store, "--input-format", "tar", "--tar-add-root", index, fifo)
+			cmd.Env = append(os.Environ(), "HOME=/nonexistent")
+			var out bytes.Buffer
+			cmd.Stdout, cmd.Stderr = &out, &out
+			must(cmd.Start())
+			done := make(chan error, 1)
+			go func() { done <- cmd.Wait() }()
+			time.Sleep(150 * time.Millisecond) // the command is waiting for a writer on the FIFO by now
+			fed := make(chan struct{})
+			go func() {
+				defer close(fed)
+				f, err := os.OpenFile(fifo, os.O_WRONLY, 0)
+				if err != nil {
+					return
+				}
+				defer f.Close()
+				cut := 0
+				if after > 0 {
+					cut = pieces[after-1]
+					f.Write(full[:cut])
+					time.Sleep(100 * time.Millisecond)
+				}
+				cmd.Process.Signal(sig)
+				time.Sleep(100 * time.Millisecond)
+				f.Write(full[cut:])
+			}()
+			if after == 0 {
+				// the signal goes out before the stream is even opened for writing
+			}
+			var werr error
+			hung := false
+			select {
+			case werr = <-done:
+			case <-time.After(60 * time.Second):
+				cmd.Process.Kill()
+				werr = <-done
+				hung = true
+			}
+			// unblock the feeder if the command went away without reading
+			if rf, err := os.OpenFile(fifo, os.O_RDONLY|syscall.O_NONBLOCK, 0); err == nil {
+				select {
+				case <-fed:
+				case <-time.After(2 * time.Second):
+				}
+				rf.Close()
+			}
+			exit := 0
+			if werr != nil {
+				exit = 1
+			}
+			complete := false
+			if exit == 0 {
+				dst := mkdir(filepath.Join(dir, "fifodst"))
+				ru := exec.Command(binary, "untar", "-i", "-s", store, "--no-same-owner", index, dst)
+				ru.Env = append(os.Environ(), "HOME=/nonexistent")
+				if ru.Run() == nil {
+					n := 0
+					filepath.Walk(dst, func(p string, info os.FileInfo, err error) error {
+						if err == nil && info.Mode().IsRegular() {
+							n++
+						}
+						return nil
+					})
+					complete = n == 6
+				}
+			}
+			w.Emit(J{"ev": "signal", "cmd": "tar-i-fifo", "sig": map[syscall.Signal]string{syscall.SIGINT: "INT", syscall.SIGTERM: "TERM"}[sig], "k": after, "signalled": true, "requests": 0,
+				"exit": exit, "hung": hung, "complete": complete, "untouched": true, "out": firstLine(out.String())})
+		}
+	}
+}
+
 // verify-index has no store requests to count: the signal is sent after a delay. The file differs from the index in its
 // last byte, so whatever happens first - the mismatch or the interruption - the command must not exit 0.
 func runVerifySignal(r *rand.Rand, dir string, thorough bool) {
@@ -562,6 +678,7 @@ func main() {
 	}
 	if *mode == "all" || *mode == "cli" {
 		runCLI(r, mkdir(filepath.Join(*dir, "cli")), *thorough)
+		runFifoSignal(r, mkdir(filepath.Join(*dir, "fifo")), *thorough)
 		runVerifySignal(r, mkdir(filepath.Join(*dir, "verify")), *thorough)
 	}
 	must(w.Close())
